@@ -31,7 +31,9 @@ def is_const_expr(n, known):
     if isinstance(n, ast.BinOp) and isinstance(n.op, (ast.Add, ast.Sub, ast.Mult, ast.FloorDiv)):
         return is_const_expr(n.left, known) and is_const_expr(n.right, known)
     if isinstance(n, (ast.Tuple, ast.List)) and n.elts and len(n.elts) <= 8:
-        return all(is_const_expr(e, known) or _enum_member(e) for e in n.elts)
+        # tuples of constants, enum members, module-level objects (codecs, classes) and nested such tuples
+        return all(is_const_expr(e, known) or _enum_member(e) or isinstance(e, ast.Name)
+                   or (isinstance(e, ast.Attribute) and isinstance(e.value, ast.Name) and e.value.id not in ("self", "cls")) for e in n.elts)
     if isinstance(n, ast.Name) and n.id in known:
         return True
     if isinstance(n, ast.Call) and ast.unparse(n.func) in ("np.dtype", "numpy.dtype") and len(n.args) == 1 and isinstance(n.args[0], ast.Constant):
@@ -604,15 +606,31 @@ class LoopNorm(ast.NodeTransformer):
                 and not any(isinstance(n, ast.Name) and n.id == node.target.id for s in node.body for n in ast.walk(s)) \
                 and not any(isinstance(n, ast.Name) and isinstance(n.ctx, ast.Store) for s in node.body for n in ast.walk(s)):
             return [copy.deepcopy(s) for _ in range(it.args[0].value) for s in node.body]
-        # unroll literal tuple loops
-        if isinstance(node.iter, (ast.Tuple, ast.List)) and 0 < len(node.iter.elts) <= 8 and isinstance(node.target, ast.Name) and not node.orelse \
-                and not any(isinstance(n, (ast.Break, ast.Continue)) for s in node.body for n in ast.walk(s)) \
-                and not any(isinstance(n, ast.Name) and n.id == node.target.id and isinstance(n.ctx, ast.Store) for s in node.body for n in ast.walk(s)):
-            out = []
-            for e in node.iter.elts:
-                for s in node.body:
-                    out.append(_subst_names(s, {node.target.id: e}))
-            return out
+        # unroll loops over literal sequences (also zip(<literal>, <literal>) and tuple targets over literal tuples)
+        seq = node.iter
+        if isinstance(seq, ast.Call) and isinstance(seq.func, ast.Name) and seq.func.id == "zip" and not seq.keywords and len(seq.args) >= 2 \
+                and all(isinstance(a, (ast.Tuple, ast.List)) for a in seq.args) and len({len(a.elts) for a in seq.args}) == 1:
+            seq = ast.Tuple(elts=[ast.Tuple(elts=[a.elts[k] for a in seq.args], ctx=ast.Load()) for k in range(len(seq.args[0].elts))], ctx=ast.Load())
+        if isinstance(seq, (ast.Tuple, ast.List)) and 0 < len(seq.elts) <= 12 and not node.orelse \
+                and not any(isinstance(n, (ast.Break, ast.Continue)) for s in node.body for n in ast.walk(s)):
+            tnames = [node.target.id] if isinstance(node.target, ast.Name) else \
+                ([t.id for t in node.target.elts] if isinstance(node.target, (ast.Tuple, ast.List)) and all(isinstance(t, ast.Name) for t in node.target.elts) else None)
+            if tnames is not None and not any(isinstance(n, ast.Name) and n.id in tnames and isinstance(n.ctx, ast.Store) for s in node.body for n in ast.walk(s)):
+                envs = []
+                for e in seq.elts:
+                    if isinstance(node.target, ast.Name):
+                        envs.append({node.target.id: e})
+                    elif isinstance(e, (ast.Tuple, ast.List)) and len(e.elts) == len(tnames):
+                        envs.append(dict(zip(tnames, e.elts)))
+                    else:
+                        envs = None
+                        break
+                if envs is not None:
+                    out = []
+                    for env in envs:
+                        for s in node.body:
+                            out.append(_subst_names(s, env))
+                    return out
         return node
 
     def visit_While(self, node):
@@ -646,11 +664,17 @@ def _negate(t):
 # ------------------------------------------------------------------------------------------- driver
 def normalise_module(tree: ast.Module):
     info = {"constants": 0, "inlined": {}, "dropped_helpers": []}
+    from .normalize2 import ForwardTemps, NamedTupleReduce, desugar_module, inline_closures, namedtuples
+    desugar_module(tree)
+    nts = namedtuples(tree)
+    EXTRA_PURE.clear()
+    EXTRA_PURE.update(nts)
     bases = {st.name: [ast.unparse(b).split("[")[0] for b in st.bases] for st in tree.body if isinstance(st, ast.ClassDef)}
     mod, classes = collect_constants(tree)
     info["constants"] = len(mod) + sum(len(v) for v in classes.values())
     if mod or classes:
         ConstSubst(mod, classes, bases).visit(tree)
+    info["closures"] = inline_closures(tree)
     AppendLoops().visit(tree)
     Canon().visit(tree)
     LoopNorm().visit(tree)
@@ -696,6 +720,25 @@ def normalise_module(tree: ast.Module):
     LoopNorm().visit(tree)
     info["copyprop_rounds"] = normalise_functions(tree)
     ast.fix_missing_locations(tree)
+    # records: reduce X(a, b).field, then give the simplified code one more round
+    again = False
+    if nts:
+        r = NamedTupleReduce(nts)
+        r.visit(tree)
+        again = r.changed
+    for fn in [n for n in ast.walk(tree) if isinstance(n, ast.FunctionDef)]:
+        again |= ForwardTemps().run(fn)
+    if again:
+        ast.fix_missing_locations(tree)
+        if nts:
+            NamedTupleReduce(nts).visit(tree)
+        from .normalize2 import Desugar
+        Desugar().visit(tree)
+        LoopNorm().visit(tree)
+        normalise_functions(tree)
+        if nts:
+            NamedTupleReduce(nts).visit(tree)
+        ast.fix_missing_locations(tree)
     return info
 
 
@@ -710,10 +753,15 @@ READONLY_METHODS = {"tolist", "astype", "copy", "exists", "is_file", "lower", "u
 FRESH_METHODS = {"tolist", "astype", "copy", "keys", "values", "items"}
 
 
+EXTRA_PURE = set()  # names of record constructors (NamedTuple classes) of the module being normalised
+
+
 def _pure_expr(e):
     """no side effect and no dependence on anything but names and heap reads"""
     for n in ast.walk(e):
         if isinstance(n, ast.Call):
+            if isinstance(n.func, ast.Name) and n.func.id in EXTRA_PURE:
+                continue
             if isinstance(n.func, ast.Attribute) and n.func.attr in READONLY_METHODS and not isinstance(n.func.value, ast.Call):
                 continue
             if ast.unparse(n.func) not in PURE_CALLS:
